@@ -100,6 +100,9 @@ class BaseTorchFlow(Flow):
                 strict=False,
             )
             config["data_transform"] = data_transform
+        # Extra keyword arguments of the flow are stored under "kwargs"
+        kwargs = config.pop("kwargs", None) or {}
+        config.update(kwargs)
         obj = self(**config)
         # Load weights
         weights = {
